@@ -37,6 +37,8 @@ type c15Case struct {
 	NNP      bool         `json:"nnp"`
 	Uid      int          `json:"uid"`
 	Events   []spec.Event `json:"events"`
+	// DenyExec: the (valid) policy answers errno to execve/execveat: the sandbox cannot start the target.
+	DenyExec bool `json:"deny_exec,omitempty"`
 }
 
 var c15Defects = []string{"missing-file", "empty-file", "yaml-syntax", "wrong-type", "unknown-syscall", "unknown-syscall-conditional", "unknown-action",
@@ -48,6 +50,10 @@ func drawC15(t *rapid.T) c15Case {
 	if rapid.IntRange(0, 1).Draw(t, "invalid") == 1 {
 		c.Defect = c15Defects[rapid.IntRange(0, len(c15Defects)-1).Draw(t, "defect")]
 		c.Pos = rapid.IntRange(0, 1<<16).Draw(t, "pos")
+	}
+	if c.Defect == "" && rapid.IntRange(0, 5).Draw(t, "denyExec") == 0 {
+		c.DenyExec = true
+		c.Policy = c15DenyExecPolicy(rapid.IntRange(0, 2).Draw(t, "denyExecShape"))
 	}
 	switch rapid.IntRange(0, 3).Draw(t, "mode") {
 	case 0:
@@ -389,6 +395,19 @@ func checkC15(raw json.RawMessage) (ev.Result, error) {
 		res.NonTrivial = c.Pos%97 != 0 && c.Defect != "missing-file" && c.Defect != "empty-file"
 		return res, nil
 	}
+	if c.DenyExec {
+		// the policy itself refuses execve: the filter is installed before the target is started, so the target
+		// must not run (it would observe a decision the policy does not make) and the sandbox reports the failure
+		res.Classes = append(res.Classes, "valid-policy-that-denies-execve")
+		if run.marker {
+			return res, fmt.Errorf("the policy answers errno to execve/execveat, but the target program was started: the installed filter is not the file's policy (sandbox exit %d, stderr %q)\n%s", run.exit, clip(run.stderr, 300), clip(text, 1500))
+		}
+		if run.exit == 0 && !run.signaled {
+			return res, fmt.Errorf("the policy denies execve and the target did not run, but the sandbox exited 0")
+		}
+		res.NonTrivial = true
+		return res, nil
+	}
 	// valid policy: the file must load; the target runs and observes exactly the policy's decisions
 	res.Classes = append(res.Classes, "valid")
 	if !run.marker {
@@ -476,4 +495,24 @@ func checkC15(raw json.RawMessage) (ev.Result, error) {
 
 func TestC15Sandbox(t *testing.T) {
 	ev.Prop(t, "C15", "sandbox", drawC15, checkC15)
+}
+
+// c15DenyExecPolicy: valid policies under which execve and execveat are answered errno while everything else the
+// sandbox needs is allowed: (0) default errno + allow group over the table without the two, (1) default allow +
+// an errno group naming them, (2) like 0 with the allow group split in two.
+func c15DenyExecPolicy(shape int) spec.Policy {
+	rest := spec.Group{Action: actAllow}
+	for _, n := range gen.Universe("x86_64") {
+		if n != "execve" && n != "execveat" {
+			rest.Names = append(rest.Names, n)
+		}
+	}
+	switch shape {
+	case 1:
+		return spec.Policy{Arch: "x86_64", Default: actAllow, Groups: []spec.Group{{Action: actErrno, Names: []string{"execve", "execveat"}}}}
+	case 2:
+		h := len(rest.Names) / 2
+		return spec.Policy{Arch: "x86_64", Default: actErrno, Groups: []spec.Group{{Action: actAllow, Names: rest.Names[:h]}, {Action: actAllow, Names: rest.Names[h:]}}}
+	}
+	return spec.Policy{Arch: "x86_64", Default: actErrno, Groups: []spec.Group{rest}}
 }
